@@ -48,11 +48,19 @@ def le(x, y, ctx):
 
 
 def amin(x, y, ctx):
-    return x if le(x, y, ctx) else y
+    if nonneg(y - x, ctx):
+        return x
+    if nonneg(x - y, ctx):
+        return y
+    raise Undecided(f'cannot order {x} and {y} under the loop intervals')
 
 
 def amax(x, y, ctx):
-    return y if le(x, y, ctx) else x
+    if nonneg(y - x, ctx):
+        return y
+    if nonneg(x - y, ctx):
+        return x
+    raise Undecided(f'cannot order {x} and {y} under the loop intervals')
 
 
 def eq(x, y):
